@@ -108,6 +108,9 @@ pub struct ChainCfg {
     /// evaluation budget (0 = default 300k); a run that exhausts it is stopped and not judged afterwards
     #[serde(default)]
     pub max_evals: u64,
+    /// call set_position again (with the same initial point) right before this draw call
+    #[serde(default)]
+    pub reinit_at: Option<u64>,
 }
 
 #[derive(Clone, Debug)]
@@ -386,6 +389,24 @@ fn run_with<S: Settings>(settings: S, cfg: &ChainCfg) -> History {
         }
     }
     for i in 0..cfg.n_calls {
+        if cfg.reinit_at == Some(i) && i > 0 {
+            let r = catch_unwind(AssertUnwindSafe(|| chain.set_position(&cfg.init)));
+            match r {
+                Ok(Ok(())) => {}
+                Ok(Err(e)) => {
+                    let n = log.lock().unwrap().n_evals;
+                    hist.failed_call = Some((i, CallResult::Err(format!("re-init: {e:#}")), (n, n)));
+                    break;
+                }
+                Err(p) => {
+                    let n = log.lock().unwrap().n_evals;
+                    hist.failed_call = Some((i, CallResult::Panic(format!("re-init: {}", panic_message(p))), (n, n)));
+                    std::mem::forget(chain);
+                    finish(&mut hist, &log);
+                    return hist;
+                }
+            }
+        }
         let n0 = log.lock().unwrap().n_evals;
         let r = catch_unwind(AssertUnwindSafe(|| chain.expanded_draw()));
         let n1 = log.lock().unwrap().n_evals;
